@@ -1,8 +1,8 @@
 package core
 
 import (
-	"errors"
 	"encoding/json"
+	"errors"
 	"fmt"
 	"os"
 	"os/exec"
